@@ -76,12 +76,40 @@ def _type_of_discr(body, term):
     return None
 
 
-def guards(body, bb, eb=None):
-    """normalised dominating guards of block bb"""
+def guards(body, bb, eb=None, _depth=0):
+    """normalised dominating guards of block bb.
+    Value-correlated refinement: a guard `ok(X)` / `some(X)` on a merged temporary X (several
+    definitions, e.g. the return slot of an inlined helper, or `let r = if .. { Ok(v) } else {
+    Err(e) }`) can only hold on paths through X's single Ok/Some definition, so the guards that
+    dominate that definition are added."""
     eb = eb or ExprBuilder(body)
     out = []
     for sb, term, val in body.guards(bb):
         out.append(norm_guard(body, eb, term, val))
+    if _depth < 3:
+        extra = []
+        for g in out:
+            if g[0] in ("ok", "some") and len(g) > 1 and isinstance(g[1], tuple) and g[1][0] == "var" and isinstance(g[1][1], int):
+                l = g[1][1]
+                okd = []
+                bad = False
+                for dbb, didx, item in body.defs().get(l, []):
+                    if body.is_cleanup(dbb):
+                        continue
+                    saved = (eb.cur_bb, eb.cur_idx)
+                    e = eb.at(dbb, didx).call(item) if didx == "term" else eb.at(dbb, didx).rvalue(item["rv"])
+                    eb.cur_bb, eb.cur_idx = saved
+                    if e[0] == "agg" and (e[1].endswith("Result::Ok") or e[1].endswith("Option::Some")):
+                        okd.append(dbb)
+                    elif (e[0] == "agg" and (e[1].endswith("Result::Err") or e[1].endswith("Option::None"))) or (e[0] == "call" and "from_residual" in e[1]):
+                        continue
+                    else:
+                        bad = True
+                if len(okd) == 1 and not bad:
+                    for g2 in guards(body, okd[0], eb, _depth + 1):
+                        if g2 not in out and g2 not in extra:
+                            extra.append(g2)
+        out = out + extra
     return out
 
 
@@ -159,27 +187,77 @@ def is_ok(e):
 
 
 def truth_table(body, eb=None, max_atoms=6):
-    """D-bool: for a loop-free body, enumerate the outcomes of its boolean switch conditions and
-    follow the CFG: returns (atoms, {assignment tuple: reached-return-definition key}).
-    atoms are the distinct comparison expressions (canonical strings) switched on; the
-    return-definition key is the show()n expression assigned to _0 on that path."""
+    """D-bool: for a loop-free body, enumerate the outcomes of its boolean conditions and follow the
+    CFG: returns (atoms, {assignment tuple: reached-return-definition key}).
+    atoms are the distinct comparison expressions (canonical strings); the return-definition key is
+    the show()n expression assigned to _0 on that path.
+    A condition may be switched on directly (`if a < b || c`) or first be *materialised* in a bool
+    temporary with several definitions (`let t = a < b || c; if t`, or the return slot of an inlined
+    helper): such temporaries are evaluated along the simulated path, so both forms give the same
+    table."""
     from .expr import ExprBuilder as _EB, show as _show
     eb = eb or _EB(body)
-    atoms = []
-    sw = {}
-    for sb, t, arms in body.switch_edges():
-        if t.get("discr_ty") != "bool":
+    if body.natural_loops():
+        return None, None
+    # materialised booleans: bool locals with >= 2 definitions, all of them simple
+    mat = {}
+    for l, d in enumerate(body.locals):
+        if d.get("ty") != "bool" or l == 0:
             continue
-        d = eb.at(sb).op(t["discr"])
+        ds = [x for x in body.defs().get(l, []) if not body.is_cleanup(x[0])]
+        if len(ds) < 2 or any(x[1] == "term" for x in ds):
+            continue
+        mat[l] = ds
+
+    def strip_not(d):
         pos = True
         while d[0] == "un" and d[1] == "Not":
             d = d[2]
             pos = not pos
+        return d, pos
+    atoms = []
+
+    def atom_of(e):
+        d, pos = strip_not(e)
         key = _show(d)
         if key not in atoms:
             atoms.append(key)
-        sw[sb] = (key, pos, t)
-    if len(atoms) > max_atoms or body.natural_loops():
+        return key, pos
+    sw = {}
+    for sb, t, arms in body.switch_edges():
+        if t.get("discr_ty") != "bool":
+            continue
+        op = t["discr"]
+        # chase plain copies back to a materialised boolean
+        n_ = 0
+        while op.get("k") in ("move", "copy") and not op["place"]["proj"] and op["place"]["local"] not in mat and n_ < 6:
+            ds_ = [x for x in body.defs().get(op["place"]["local"], []) if not body.is_cleanup(x[0])]
+            if len(ds_) == 1 and ds_[0][1] != "term" and ds_[0][2]["rv"]["k"] == "use":
+                op = ds_[0][2]["rv"]["op"]
+                n_ += 1
+            else:
+                break
+        if op.get("k") in ("move", "copy") and not op["place"]["proj"] and op["place"]["local"] in mat:
+            sw[sb] = ("mat", op["place"]["local"], t)
+            continue
+        key, pos = atom_of(eb.at(sb).op(t["discr"]))
+        sw[sb] = ("atom", (key, pos), t)
+    # values assigned to materialised booleans
+    mat_rv = {}
+    for l, ds in mat.items():
+        for bb, idx, item in ds:
+            rv = item["rv"]
+            if rv["k"] == "use" and rv["op"].get("k") == "const" and "bool" in rv["op"]:
+                mat_rv[(bb, idx)] = ("const", bool(rv["op"]["bool"]))
+            elif rv["k"] == "use" and rv["op"].get("k") in ("move", "copy") and not rv["op"]["place"]["proj"] and rv["op"]["place"]["local"] in mat:
+                mat_rv[(bb, idx)] = ("mat", rv["op"]["place"]["local"])
+            else:
+                e = eb.at(bb, idx).rvalue(rv)
+                if e[0] == "c" and isinstance(e[1], bool):
+                    mat_rv[(bb, idx)] = ("const", e[1])
+                else:
+                    mat_rv[(bb, idx)] = ("atom", atom_of(e))
+    if len(atoms) > max_atoms:
         return None, None
     ret_defs = {}
     for bb, idx, item in body.defs().get(0, []):
@@ -192,6 +270,7 @@ def truth_table(body, eb=None, max_atoms=6):
     for mask in range(1 << n):
         assign = tuple(bool(mask >> k & 1) for k in range(n))
         env = dict(zip(atoms, assign))
+        menv = {}
         bb = 0
         last_ret = None
         steps = 0
@@ -199,12 +278,28 @@ def truth_table(body, eb=None, max_atoms=6):
             steps += 1
             if bb in ret_defs:
                 last_ret = ret_defs[bb]
+            for idx, st in enumerate(body.blocks[bb]["stmts"]):
+                v = mat_rv.get((bb, idx))
+                if v is None or st["k"] != "assign":
+                    continue
+                l = st["place"]["local"]
+                if v[0] == "const":
+                    menv[l] = v[1]
+                elif v[0] == "mat":
+                    menv[l] = menv.get(v[1], False)
+                else:
+                    key, pos = v[1]
+                    menv[l] = env[key] if pos else not env[key]
             t = body.blocks[bb]["term"]
             if t["k"] == "return":
                 break
             if bb in sw:
-                key, pos, tt = sw[bb]
-                val = env[key] if pos else not env[key]
+                kind, what, tt = sw[bb]
+                if kind == "mat":
+                    val = menv.get(what, False)
+                else:
+                    key, pos = what
+                    val = env[key] if pos else not env[key]
                 want_v = 1 if val else 0
                 nxt = tt["otherwise"]
                 for v, tg in tt["targets"]:
